@@ -10,7 +10,7 @@ CONSTANTS
   MinUnits = 0
   MaxDepth = 8
   MaxActs = 1000
-  AllowNeg = TRUE
+  Signs = {"-", "+"}
   AllowCall = TRUE
   AllowList = TRUE
   AllowGroup = TRUE
